@@ -132,6 +132,21 @@ impl Heap {
     }
 }
 
+#[cfg(feature = "verif-hooks")]
+impl Heap {
+    /// Verification hook: build a heap directly from pre-constructed cells
+    /// (cell 0 is whatever the caller puts there; `Heap::new()` puts the
+    /// `constants` record there).
+    pub fn verif_from_values(values: Vec<HeapValue>) -> Self {
+        Self { values }
+    }
+
+    /// Verification hook: number of cells currently in the heap.
+    pub fn verif_len(&self) -> usize {
+        self.values.len()
+    }
+}
+
 impl Default for Heap {
     fn default() -> Self {
         Self::new()
